@@ -756,8 +756,6 @@ def enumerate_turn_cases(thorough: bool, seed: int) -> Dict[str, List[dict]]:
         topks = (3,)
         embeds = (True,)
         ats = (("A", 1),)
-        if seed % 2 == 1:   # additional enumerated alphabet, never sampling
-            topks = (3, 0)
     for utter in utters:
         for world, sn in wsn:
             for tk in tokens:
@@ -1159,9 +1157,9 @@ def replay(case):
         if kind == "hashseed":
             return sorted(set(check_hash_seeds(base, list(case.get("seeds") or HASH_SEEDS))[0]))
         if kind == "reflect":
-            return check_reflect_direct(case, env)[0]
+            return sorted(set(check_reflect_direct(case, env)[0]))
         if kind == "writer":
-            return check_writer_direct(case, {})[0]
+            return sorted(set(check_writer_direct(case, {})[0]))
         if kind == "pair":
             out = []
             for cc in (case["a"], case["b"]):
